@@ -132,6 +132,13 @@ Theorem c19_results_complete_at_end_of_stream :
 Proof. exact aconv_results_complete. Qed.
 
 
+(* the parked keep-alive reply is CONNECTION state: whichever future does the flushing - a read() or the caller's write(), run to the
+   end or dropped at a not-ready poll - what it wrote followed by what is still parked is the reply, and nothing is left parked
+   exactly when the flush completed *)
+Theorem c19_parked_reply_is_conserved : forall ws pw r pw' ws' w,
+  flush pw ws = (r, pw', ws', w) -> pw = w ++ pw' /\ (r = FDone -> pw' = []).
+Proof. exact flush_conserve. Qed.
+
 (* non-vacuity: the future is dropped while the keep-alive reply is half written and again while waiting for data *)
 Example c19_example :
   run_async Compressed false [([3;0;0], (0, CKeep)); ([3;1;2], (1, COther))]
